@@ -563,7 +563,7 @@ func c06run(sn c06scn) (res c06res) {
 		}
 		ft.Locked(func() { ft.ReadErrAt = 0 })
 		// drain everything queued, then a key and a resize must come through
-		sawKey, sawResize := false, false
+		sawKey, sawResize, sawEsc := false, false, false
 		got := make(chan tcell.Event, 64)
 		q2 := make(chan struct{})
 		go s.ChannelEvents(got, q2)
@@ -573,15 +573,20 @@ func c06run(sn c06scn) (res c06res) {
 		ft.SetSize(33, 9)
 		ft.NotifyNow()
 		fed := make(chan struct{})
-		go func() { ft.Feed([]byte("ω")); close(fed) }()
+		// ... and a lone ESC must come out as the Esc key once the (real, 50 ms) escape
+		// timeout has passed: bounded progress, judged structurally if it does not
+		go func() { ft.Feed([]byte("ω")); ft.Feed([]byte("\x1b")); close(fed) }()
 		deadline := time.After(20 * time.Second)
-		for !(sawKey && sawResize) {
+		for !(sawKey && sawResize && sawEsc) {
 			select {
 			case ev := <-got:
 				switch e := ev.(type) {
 				case *tcell.EventKey:
 					if e.Rune() == 'ω' {
 						sawKey = true
+					}
+					if e.Key() == tcell.KeyEsc {
+						sawEsc = true
 					}
 				case *tcell.EventResize:
 					if w, h := e.Size(); w == 33 && h == 9 {
@@ -593,7 +598,7 @@ func c06run(sn c06scn) (res c06res) {
 				d := census.Dump()
 				sg, all := census.Parked(d, nil)
 				if all {
-					return fail("after-resume:no-delivery", fmt.Sprintf("after Suspend+Resume key delivered=%v resize delivered=%v; the library is idle (%s)", sawKey, sawResize, strings.Join(sg, ", ")), true)
+					return fail("after-resume:no-delivery", fmt.Sprintf("after Suspend+Resume key delivered=%v resize delivered=%v lone ESC delivered=%v; the library is idle (%s)", sawKey, sawResize, sawEsc, strings.Join(sg, ", ")), true)
 				}
 				return incon("delivery after Resume: watchdog")
 			}
